@@ -396,6 +396,14 @@ func checkFaith(c *driver.Ctx, i int64, fc *faithCase, withCollector bool) {
 		return
 	}
 	c.Observe("collector_configs_received", 1)
+	for _, o := range res.others {
+		c.Observe("collector_configs_received_by_writing_watchers", 1)
+		if a, b := confgen.Canon(o), confgen.Canon(em); a != b {
+			c.Violation("effective", fmt.Sprintf("%s: the configuration handed to one ConfigWatcher shows what another watcher wrote into its own copy (or otherwise differs from confmap.Marshal of the loaded configuration)", fc.comp.name()),
+				fc.witness(map[string]any{"watcher": clip(a, 3000), "marshal": clip(b, 3000)}), "comp", fc.comp.name(), "key", "-", "kind", "watchers-share", "source", "collector")
+			break
+		}
+	}
 	if a, b := confgen.Canon(res.eff), confgen.Canon(em); a != b {
 		c.Violation("effective", fmt.Sprintf("%s: the configuration handed to the ConfigWatcher differs from confmap.Marshal of the loaded configuration", fc.comp.name()),
 			fc.witness(map[string]any{"watcher": clip(a, 3000), "marshal": clip(b, 3000)}), "comp", fc.comp.name(), "key", "-", "kind", "watcher-differs", "source", "collector")
